@@ -135,7 +135,7 @@ def check_program(ctx, root, n, texts, family, schema, valid_expected=None):
         splits = [s for s in itertools.product([True, False], repeat=k) if any(s)]
         combos = [(p, s) for p in perms for s in splits]
         rng.shuffle(combos)
-        limit = 10 if ctx.tier == "quick" else 60
+        limit = 16 if ctx.tier == "quick" else 60
         for order, split in combos[:limit]:
             obs = run_once(ctx, case_dir, names, list(order), list(split), schema, "./gen-ok-c15")
             ctx.stats["permuted_runs"] += 1
@@ -210,7 +210,7 @@ def run_shard(ctx, spec):
 
 
 def plan(tier, seed):
-    n = 96 if tier == "quick" else 2000
+    n = 400 if tier == "quick" else 4000
     return [("collisions", i, 8) for i in range(8)] + [("generated", n // 16, i) for i in range(16)]
 
 
@@ -223,7 +223,7 @@ def main(tier, seed):
               "families); 3 identical runs in fresh processes compared byte-wise (stdout, stderr, captured request), then up to %d "
               "(permutation, source/reference assignment) pairs compared with the all-sources run: acceptance, per-file decoded "
               "request content, multiset of warnings (JSON diagnostics). distinct_nontrivial = distinct programs"
-              % (len(COLLISIONS), 10 if tier == "quick" else 60)),
+              % (len(COLLISIONS), 16 if tier == "quick" else 60)),
         required={"programs": 60, "repeat_runs": 100, "permuted_runs": 400, "accepted_programs": 20, "rejected_programs": 10,
                   "files_compared": 200, "collision_families": len(COLLISIONS)},
         assumptions=["hash-order dependence is detected with high probability only (each process has fresh RandomState keys)",
